@@ -1,4 +1,5 @@
 import NdnProofs.Props.C14
+import NdnProofs.Props.C14Lvs
 #print axioms Ndn.C14.validate_sound
 #print axioms Ndn.C14.validate_complete
 #print axioms Ndn.C14.verdict_iff_chain
@@ -9,3 +10,14 @@ import NdnProofs.Props.C14
 #print axioms Ndn.C14.loop_never_accepted
 #print axioms Ndn.C14.construct_refuses
 #print axioms Ndn.C14.caught_exceptions
+#print axioms Ndn.C14.allowed_iff_schema_link
+#print axioms Ndn.C14.validate_sound_lvs
+#print axioms Ndn.C14.validate_complete_lvs
+#print axioms Ndn.C14.verdict_iff_chain_lvs
+#print axioms Ndn.C14.system_verdict_iff_chain_lvs
+#print axioms Ndn.C14.lvs_chain_keys_matched
+#print axioms Ndn.C14.chain_never_through_unmatched_key
+#print axioms Ndn.C14.unmatched_key_never_accepted
+#print axioms Ndn.C14.root_of_trust_spec
+#print axioms Ndn.C14.construct_refuses_lvs
+#print axioms Ndn.C14.construct_refuses_missing_fns_lvs
